@@ -335,6 +335,53 @@ static void stage_jt(unsigned char *src, unsigned long size, xf_t *x, int inject
   jpeg_destroy_compress(&c); jpeg_destroy_decompress(&d); free(out);
 }
 
+/* ------------------------------------------------ two-step histories on one instance */
+static const char *tj_err_name(tjhandle h)
+{
+  static char mm[96]; const char *m = tj3GetErrorStr(h); int j;
+  const char *nm = strstr(m, "not perfect") ? "NotPerfect" : strstr(m, "Invalid crop request") ? "BadCrop" :
+                   strstr(m, "To crop this JPEG") ? "Align" : strstr(m, "Unsupported color conversion") ? "NoGray" :
+                   strstr(m, "multiple use of quantization table") ? "QuantReuse" :
+                   strstr(m, "Could not determine subsampling level") ? "UnknownSubsamp" :
+                   strstr(m, "exceeds the destination image") ? "Exceeds" : strstr(m, "too small") ? "TooSmall" : NULL;
+  if (nm) return nm;
+  snprintf(mm, sizeof mm, "Other:%s", m);
+  for (j = 0; mm[j]; j++) if (mm[j] == ' ' || mm[j] == '\n' || mm[j] == '|' || mm[j] == '#' || mm[j] == ';') mm[j] = '_';
+  return mm;
+}
+
+static void fill_tjt(tjtransform *t, xf_t *x)
+{
+  memset(t, 0, sizeof *t);
+  t->op = x->op;
+  t->options = (x->perfect ? TJXOPT_PERFECT : 0) | (x->trim ? TJXOPT_TRIM : 0) | (x->gray ? TJXOPT_GRAY : 0) |
+               (x->crop ? TJXOPT_CROP : 0) | ((x->eopt & 1) ? TJXOPT_PROGRESSIVE : 0) | ((x->eopt & 2) ? TJXOPT_ARITHMETIC : 0) |
+               ((x->eopt & 4) ? TJXOPT_OPTIMIZE : 0) | ((x->eopt & 8) ? TJXOPT_COPYNONE : 0);
+  t->r.x = x->cx; t->r.y = x->cy; t->r.w = x->cw; t->r.h = x->ch;
+}
+
+#define HBUF (4u << 20)
+/* one transform through the chosen entry point; api 0 = tj3Transform, 1 = legacy tjTransform;
+   norealloc: caller-owned buffers (small = 1: deliberately too small, tj3 only).  Prints "ok | image" / "err Name" when show. */
+static int hist_call(tjhandle h, int api, int norealloc, int small, unsigned char *src, unsigned long size, xf_t *x, int show)
+{
+  tjtransform t; unsigned char *buf = NULL; int rc;
+  fill_tjt(&t, x);
+  if (norealloc) buf = malloc(HBUF);
+  if (api == 0) {
+    size_t sz = norealloc ? (small ? 64 : HBUF) : 0;
+    tj3Set(h, TJPARAM_NOREALLOC, norealloc);
+    rc = tj3Transform(h, src, size, 1, &buf, &sz, &t);
+    if (show) { if (rc) printf("err %s", tj_err_name(h)); else { printf("ok | "); dump_jpeg(buf, (unsigned long)sz); } }
+  } else {
+    unsigned long sz = norealloc ? HBUF : 0;
+    rc = tjTransform(h, src, size, 1, &buf, &sz, &t, norealloc ? TJFLAG_NOREALLOC : 0);
+    if (show) { if (rc) printf("err %s", tj_err_name(h)); else { printf("ok | "); dump_jpeg(buf, sz); } }
+  }
+  if (norealloc) free(buf); else tj3Free(buf);
+  return rc;
+}
+
 /* -------------------------------------------------------------------- main */
 static char *line; static size_t cap;
 static long tok(char **p) { return strtol(*p, p, 10); }
@@ -358,6 +405,36 @@ int main(void)
         tj3Destroy(h2); free(b2);
       }
       fflush(stdout); continue;
+    }
+    if (!strncmp(p, "hist ", 5)) {
+      /* hist API1 NR1 SMALL1 API2 NR2 <source A> <xf A> <source B> <xf B>
+         step 1: transform A (expected to fail or not) on instance h; step 2: transform B on the SAME instance;
+         reference: transform B on a fresh instance.  Output: H <rc1-class> ; <step 2> ; <fresh> */
+      int api1, nr1, small1, api2, nr2, k2; unsigned char *sb[2] = { NULL, NULL }; unsigned long sn[2] = { 0, 0 }; xf_t hx[2]; int bad = 0;
+      p += 5; api1 = tok(&p); nr1 = tok(&p); small1 = tok(&p); api2 = tok(&p); nr2 = tok(&p);
+      for (k2 = 0; k2 < 2; k2++) {
+        int w2 = tok(&p), h2 = tok(&p), pr2 = tok(&p), cs2 = tok(&p), nc2 = tok(&p), hs2[MAX_COMPONENTS], vs2[MAX_COMPONENTS], kd, md, am, q;
+        unsigned long long sd; reslot_t r0;
+        for (q = 0; q < nc2 && q < MAX_COMPONENTS; q++) { hs2[q] = tok(&p); vs2[q] = tok(&p); }
+        kd = tok(&p); md = tok(&p); am = tok(&p); sd = strtoull(p, &p, 10);
+        memset(&r0, 0, sizeof r0);
+        if (make_source(w2, h2, pr2, cs2, nc2, hs2, vs2, kd, md, am, sd, &r0, &sb[k2], &sn[k2])) bad = 1;
+        hx[k2].op = tok(&p); hx[k2].perfect = tok(&p); hx[k2].trim = tok(&p); hx[k2].gray = tok(&p); hx[k2].crop = tok(&p);
+        hx[k2].cw = tok(&p); hx[k2].cwset = tok(&p); hx[k2].ch = tok(&p); hx[k2].chset = tok(&p);
+        hx[k2].cx = tok(&p); hx[k2].cxset = tok(&p); hx[k2].cy = tok(&p); hx[k2].cyset = tok(&p); hx[k2].eopt = tok(&p);
+      }
+      if (bad) printf("srcerr");
+      else {
+        tjhandle h1 = tj3Init(TJINIT_TRANSFORM), h2 = tj3Init(TJINIT_TRANSFORM); int rc1;
+        rc1 = hist_call(h1, api1, nr1, small1, sb[0], sn[0], &hx[0], 0);
+        printf("H %s ; ", rc1 ? tj_err_name(h1) : "ok");
+        hist_call(h1, api2, nr2, 0, sb[1], sn[1], &hx[1], 1);
+        printf(" ; ");
+        hist_call(h2, api2, nr2, 0, sb[1], sn[1], &hx[1], 1);
+        tj3Destroy(h1); tj3Destroy(h2);
+      }
+      free(sb[0]); free(sb[1]);
+      printf("\n"); fflush(stdout); continue;
     }
     if (strncmp(p, "case ", 5)) { printf("?\n"); fflush(stdout); continue; }
     p += 5;
